@@ -115,6 +115,15 @@ func KContract(name string, variant int, opts ...asm.ManifestOpt) *asm.Contract 
 	m("_deploy", 2, true, false)
 	b.InitSlot(0, 2).Op(opcode.LDARG1).Str("dep").Syscall("System.Storage.GetContext").Syscall("System.Storage.Put").Op(opcode.RET)
 
+	// Odd variants declare token standards: the node keeps the hashes of such contracts in a cached index
+	// (GetNEP17Contracts / GetNEP11Contracts) that has to follow deployments, updates and destructions, discarded ones too.
+	if variant%2 == 1 {
+		std := manifest.NEP17StandardName
+		if variant%4 == 3 {
+			std = manifest.NEP11StandardName
+		}
+		opts = append([]asm.ManifestOpt{func(m *manifest.Manifest) { m.SupportedStandards = []string{std} }}, opts...)
+	}
 	c, err := asm.BuildContract(name, b, ms, opts...)
 	if err != nil {
 		panic(err)
